@@ -347,10 +347,15 @@ def _iter_arguments(nodes, position):
             stars_seen = 0
 
     if not previous_node_yielded:
-        if nodes_before[-1].type == 'name':
-            yield stars_seen, remove_after_pos(nodes_before[-1]), False
-        else:
+        last = nodes_before[-1]
+        if last.type == 'name':
+            yield stars_seen, remove_after_pos(last), False
+        elif last.type in ('operator', 'error_leaf'):
+            # Nothing typed in this slot, yet (e.g. after `(`, `,` or `*`).
             yield stars_seen, '', False
+        else:
+            # A literal etc. can not become a keyword argument anymore.
+            yield stars_seen, None, False
 
 
 def _get_index_and_key(nodes, position):
